@@ -184,6 +184,12 @@ func (tb *TB) Term(v ssa.Value) *Term {
 		return t
 	}
 	if tb.active[v] {
+		switch v.(type) {
+		case *ssa.Alloc:
+			return &Term{Op: "Self", V: v}
+		case *ssa.Phi:
+			return &Term{Op: "Loop", V: v}
+		}
 		return mk("Unknown", "cycle", v)
 	}
 	tb.active[v] = true
@@ -353,15 +359,29 @@ func (tb *TB) build(v ssa.Value) *Term {
 		if x.Comment == "rangeindex" {
 			return mk("RangeIdx", "", v)
 		}
-		var parts []string
-		t := mk("Phi", "", v)
-		for _, e := range x.Edges {
-			a := tb.Term(e)
-			t.Args = append(t.Args, a)
-			parts = append(parts, a.String())
+		t := mk("Phi", x.Comment, v)
+		seenPhi := map[*ssa.Phi]bool{x: true}
+		seenStr := map[string]bool{}
+		var collect func(ph *ssa.Phi)
+		collect = func(ph *ssa.Phi) {
+			for _, e := range ph.Edges {
+				if p2, ok := e.(*ssa.Phi); ok && p2.Comment == ph.Comment && p2.Comment != "" {
+					if !seenPhi[p2] {
+						seenPhi[p2] = true
+						collect(p2)
+					}
+					continue
+				}
+				a := tb.Term(e)
+				k := a.String()
+				if !seenStr[k] {
+					seenStr[k] = true
+					t.Args = append(t.Args, a)
+				}
+			}
 		}
-		sort.Strings(parts)
-		t.S = x.Comment
+		collect(x)
+		sort.Slice(t.Args, func(i, j int) bool { return t.Args[i].String() < t.Args[j].String() })
 		return t
 	case *ssa.Range:
 		return mk("Range", "", v, tb.Term(x.X))
@@ -509,6 +529,28 @@ func (tb *TB) slice(x *ssa.Slice) *Term {
 			if lst := tb.sliceLit(al, int(arr.Len())); lst != nil {
 				return lst
 			}
+		}
+	}
+	if al, ok := x.X.(*ssa.Alloc); ok {
+		// local array holding a single stored value (h := sha256.Sum256(..); h[:4])
+		sts := storesTo(al.Parent(), al)
+		onlySlicedOrStored := true
+		for _, r := range *al.Referrers() {
+			switch r.(type) {
+			case *ssa.Slice, *ssa.Store, *ssa.DebugRef:
+			default:
+				onlySlicedOrStored = false
+			}
+		}
+		if len(sts) == 1 && onlySlicedOrStored && dominatesInstr(sts[0], x) {
+			var l, h *Term
+			if !isZero(lo) {
+				l = tb.Term(lo)
+			}
+			if hi != nil {
+				h = tb.Term(hi)
+			}
+			return mk("Slice", "", x, tb.Term(sts[0].Val), l, h)
 		}
 	}
 	base := tb.Term(x.X)
@@ -685,6 +727,58 @@ func (tb *TB) fillInfo(ms ssa.Value, length ssa.Value) *FillInfo {
 			}
 		}
 	}
+	// a view stored into a field of a struct allocated here: loads of that
+	// field are views too (constructors: i.secretKey = make(..); copy(i.secretKey, ..))
+	for changed := true; changed; {
+		changed = false
+		for v := range fi.Views {
+			refs := v.Referrers()
+			if refs == nil {
+				continue
+			}
+			for _, r := range *refs {
+				st, ok := r.(*ssa.Store)
+				if !ok || st.Val != v {
+					continue
+				}
+				fa, ok := st.Addr.(*ssa.FieldAddr)
+				if !ok {
+					continue
+				}
+				al, ok := fa.X.(*ssa.Alloc)
+				if !ok {
+					continue
+				}
+				nst := 0
+				var loads []ssa.Value
+				for _, ar := range *al.Referrers() {
+					fa2, ok := ar.(*ssa.FieldAddr)
+					if !ok || fa2.Field != fa.Field {
+						continue
+					}
+					for _, rr := range *fa2.Referrers() {
+						switch y := rr.(type) {
+						case *ssa.Store:
+							if y.Addr == fa2 {
+								nst++
+							}
+						case *ssa.UnOp:
+							loads = append(loads, y)
+						}
+					}
+				}
+				if nst != 1 {
+					continue
+				}
+				for _, l := range loads {
+					if !fi.Views[l] {
+						fi.Views[l] = true
+						changed = true
+					}
+				}
+			}
+		}
+	}
 	lenZero := false
 	if c, ok := length.(*ssa.Const); ok && c.Value != nil && constant.Sign(c.Value) == 0 {
 		lenZero = true
@@ -706,7 +800,7 @@ func (tb *TB) fillInfo(ms ssa.Value, length ssa.Value) *FillInfo {
 				}
 			case ssa.CallInstruction:
 				c := u.Common()
-				name := calleeName(c)
+				name := tb.resolvedCalleeName(c)
 				argIdx := -1
 				for i, a := range c.Args {
 					if a == v {
@@ -949,6 +1043,24 @@ func (tb *TB) makeSliceFrom(ms ssa.Value, length ssa.Value) *Term {
 // ---------------------------------------------------------------------------
 // calls
 
+// resolvedCalleeName is calleeName, with calls through package-level function
+// variables initialised once (format.EncodeToString) resolved to the method
+// or function they hold.
+func (tb *TB) resolvedCalleeName(c *ssa.CallCommon) string {
+	name := calleeName(c)
+	if name != "dynamic" {
+		return name
+	}
+	ft := tb.Term(c.Value)
+	switch {
+	case ft.Op == "Func":
+		return ft.S
+	case ft.Op == "Closure" && strings.Contains(ft.S, "$bound"):
+		return strings.TrimSuffix(ft.S, "$bound")
+	}
+	return name
+}
+
 func (tb *TB) call(c *ssa.Call) *Term {
 	cc := &c.Call
 	name := calleeName(cc)
@@ -981,9 +1093,86 @@ func (tb *TB) call(c *ssa.Call) *Term {
 		return mk("CallV", "", c, append([]*Term{ft}, args...)...)
 	}
 	if cc.IsInvoke() {
+		if name == "invoke (hash.Hash).Sum" {
+			args[0] = tb.fedState(cc.Value, c)
+		}
 		return mk("Invoke", name, c, args...)
 	}
 	return mk("Call", name, c, args...)
+}
+
+// fedState describes a stateful writer (a hash) at the point where its
+// result is taken: the base constructor plus, in order, every earlier call
+// that was handed the state (Write calls, serialisers writing into it).
+func (tb *TB) fedState(recv ssa.Value, at ssa.Instruction) *Term {
+	base := tb.Term(recv)
+	root := stripConv(recv)
+	aliases := map[ssa.Value]bool{root: true}
+	work := []ssa.Value{root}
+	for len(work) > 0 {
+		v := work[0]
+		work = work[1:]
+		if refs := v.Referrers(); refs != nil {
+			for _, r := range *refs {
+				switch x := r.(type) {
+				case *ssa.MakeInterface:
+					if !aliases[x] {
+						aliases[x] = true
+						work = append(work, x)
+					}
+				case *ssa.ChangeInterface:
+					if !aliases[x] {
+						aliases[x] = true
+						work = append(work, x)
+					}
+				}
+			}
+		}
+	}
+	var feeds []ssa.CallInstruction
+	for v := range aliases {
+		if refs := v.Referrers(); refs != nil {
+			for _, r := range *refs {
+				ci, ok := r.(ssa.CallInstruction)
+				if !ok || r == at {
+					continue
+				}
+				dup := false
+				for _, f := range feeds {
+					if f == ci {
+						dup = true
+					}
+				}
+				if !dup && dominatesInstr(r, at) {
+					feeds = append(feeds, ci)
+				}
+			}
+		}
+	}
+	sort.Slice(feeds, func(i, j int) bool {
+		return dominatesInstr(feeds[i].(ssa.Instruction), feeds[j].(ssa.Instruction))
+	})
+	t := mk("Fed", "", nil, base)
+	for _, f := range feeds {
+		fc := f.Common()
+		ft := mk("Call", tb.resolvedCalleeName(fc), nil)
+		all := fc.Args
+		if fc.IsInvoke() {
+			all = append([]ssa.Value{fc.Value}, fc.Args...)
+		}
+		for _, a := range all {
+			if aliases[stripConv(a)] || aliases[a] {
+				ft.Args = append(ft.Args, mk("Const", "·", nil))
+			} else {
+				ft.Args = append(ft.Args, tb.Term(a))
+			}
+		}
+		t.Args = append(t.Args, ft)
+	}
+	if len(t.Args) == 1 {
+		return base
+	}
+	return t
 }
 
 func (tb *TB) appendTerm(c *ssa.Call, args []*Term) *Term {
